@@ -78,6 +78,12 @@ fn main() {
             0
         }
         "selftest" => tools::selftest(),
+        "synthetic" => {
+            // sim synthetic <seed> : print a synthetic project (debugging aid)
+            let p = gen::synthetic_project(args[2].parse().unwrap());
+            println!("{}", serde_json::to_string_pretty(&p).unwrap());
+            0
+        }
         "strip" => strip::strip_file(&args[2], &args[3]),
         "compile" => tools::compile_cmd(&args[2..]),
         "prepare-js" => tools::prepare_js(&args[2]),
